@@ -275,9 +275,14 @@ func scenMicroGate(s *Sim) {
 			}
 			mu.Lock()
 			holding--
-			allowGen++
 			mu.Unlock()
 			g.AllowRebalance()
+			// (the generation moves after the reset: a second-poller poll
+			// admitted between the two would otherwise carry the new
+			// generation although the reset cleared its count)
+			mu.Lock()
+			allowGen++
+			mu.Unlock()
 		}
 	}()
 	if extraPoller {
